@@ -47,7 +47,7 @@ def run_seed(sd):
     sid = os.path.basename(sd)
     t = tempfile.mkdtemp(prefix="seedmx-")
     try:
-        subprocess.run(["cp", "-r", "/repo", t + "/repo"], check=True)
+        subprocess.run(["rsync", "-a", "--exclude", ".git", "/repo/", t + "/repo/"], check=True)
         shutil.rmtree(t + "/repo/.git", ignore_errors=True)
         p = subprocess.run(["patch", "-p1", "-s", "--no-backup-if-mismatch", "-i", os.path.join(sd, "patch.diff")], cwd=t + "/repo", capture_output=True, text=True)
         if p.returncode != 0:
